@@ -8,7 +8,8 @@
     [C12_status_readable] below. *)
 From Coq Require Import List Arith Bool NArith Permutation.
 From MWF Require Import Base.Util Base.Str Status.Csv Status.CsvProofs Status.Rows Status.RowsProofs
-  Status.Lock Status.LockProofs Status.AtomicTable Status.LockCase.
+  Status.Lock Status.LockProofs Status.AtomicTable Status.LockCase Status.Consist.
+From MWF Require Exec.ExecBase Exec.ExecRun Status.ExecJobs.
 Import ListNotations.
 
 (* ------------------------------------------------------------------------- *)
@@ -132,6 +133,63 @@ Theorem C12_consistent : forall g src statics dyn i,
   nth 10 row [] = join [semicolon] (map (fun kv => fst kv ++ [colon] ++ snd kv) (sr_params st)).
 Proof. exact row_dyn_consistent. Qed.
 Print Assumptions C12_consistent.
+
+(** TRACE LEVEL (execution model of Exec/ExecBase.v, ExecGen.v, ExecRun.v = the
+    polling logic of ExecutionGraph; nodes 0..n-1 without the source).  For
+    EVERY configuration, graph and sequence of poll inputs, after EVERY poll:
+    the job-id list of each instance is exactly the list of identifiers the
+    scheduler adapter returned for its successful submissions so far, in order
+    ([acck] = those submissions, accumulated over the adapter traces of the polls). *)
+Theorem C12_jobs_coupled_every_poll : forall c g ps sk acck,
+  In (sk, acck) (ExecJobs.run_acc c g (ExecBase.init g) [] ps) ->
+  List.length (ExecBase.recs sk) = List.length g /\
+  forall x, x < List.length g ->
+    ExecBase.jobs (ExecBase.getrec sk x) = ExecJobs.jobs_of acck x.
+Proof. exact ExecJobs.run_jobs. Qed.
+Print Assumptions C12_jobs_coupled_every_poll.
+
+(** [run_acc] visits exactly the states of [ExecRun.run_states] (the poll loop). *)
+Theorem C12_run_acc_states : forall c g ps s acc,
+  map fst (ExecJobs.run_acc c g s acc ps) = map fst (ExecRun.run_states c g s ps).
+Proof. exact ExecJobs.run_acc_states. Qed.
+Print Assumptions C12_run_acc_states.
+
+(** ... hence, through rows, printer and parser: in the table the status
+    command reads back after any poll of any history, every instance's Job ID is
+    the identifier of its LAST successful submission at the adapter, "--" if
+    there was none ([job_column_ok], the trace-level monitor evaluated on the
+    implementation's status.csv after every poll of the generated histories).
+    Partial with respect to DESIGN's C12_consistent: the Job ID column is tied to
+    the adapter trace; the State and Number Restarts columns are tied to the
+    model's record ([C12_exec_row_content]) but not re-derived from the report /
+    restart-attempt trace here (that coupling is the subject of C04/C06). *)
+Theorem C12_consistent_trace_partial : forall c eg ps sk acck (rg : graph) statics times,
+  In (sk, acck) (ExecJobs.run_acc c eg (ExecBase.init eg) [] ps) ->
+  instances rg 0 = seq 1 (List.length eg) ->
+  let recs := exec_recs statics times sk in
+  valid rg 0 recs = true -> H12_rows rg 0 recs = true ->
+  jobs_coupled rg 0 recs (shift acck) = true /\
+  job_column_ok rg 0 recs (shift acck) (snd (model_obs rg 0 recs)) = true.
+Proof. exact consistent_trace. Qed.
+Print Assumptions C12_consistent_trace_partial.
+
+Theorem C12_exec_row_content : forall statics times sk x,
+  x < List.length (ExecBase.recs sk) ->
+  let row := row_of (rec_of (exec_recs statics times sk) (S x)) in
+  let r := ExecBase.getrec sk x in
+  nth 1 row [] = last (map job_str (ExecBase.jobs r)) (s "--") /\
+  nth 3 row [] = state_name (ExecBase.status r) /\
+  nth 9 row [] = dec (N.of_nat (ExecBase.restarts r)).
+Proof. exact exec_row_content. Qed.
+Print Assumptions C12_exec_row_content.
+
+(** The same monitor against ANY record table that is coupled with the trace. *)
+Theorem C12_job_column : forall g src recs subs,
+  valid g src recs = true -> H12_rows g src recs = true ->
+  jobs_coupled g src recs subs = true ->
+  job_column_ok g src recs subs (snd (model_obs g src recs)) = true.
+Proof. exact job_column_model. Qed.
+Print Assumptions C12_job_column.
 
 (* ------------------------------------------------------------------------- *)
 (** * the monitor: rows + printer + parser together                            *)
@@ -319,4 +377,45 @@ Example ex_scenario_case :
   lock_case_ok (demo_old, demo_new_chunks,
                 ([None; Some (parse demo_old); Some (parse (List.concat demo_new_chunks))],
                  demo_old, List.concat demo_new_chunks)) = true.
+Proof. vm_compute. reflexivity. Qed.
+
+(** a history of the execution model: n0 (restartable) -> n1; poll 1 submits n0
+    (job 0), poll 2 delivers TIMEDOUT and the restart is submitted (job 1), poll
+    3 delivers FINISHED and n1 is submitted (job 2) *)
+Definition ex_eg : ExecBase.graph :=
+  [ExecBase.Build_sattr [] [1] true true 1; ExecBase.Build_sattr [0] [] true false 0].
+Definition ex_cfg : ExecBase.cfg := ExecBase.Build_cfg 0 1 false.
+Definition ex_pins : list ExecBase.pin :=
+  [ExecBase.Build_pin false ExecBase.QOK [] [true];
+   ExecBase.Build_pin false ExecBase.QOK [(0, Some ExecBase.TIMEDOUT)] [true];
+   ExecBase.Build_pin false ExecBase.QOK [(0, Some ExecBase.FINISHED)] [true]].
+Definition ex_rg : graph := [(0, [1]); (1, [2]); (2, [])].
+Definition ex_statics : list static_rec :=
+  [mkStatic (s "n0") (s "/o/n0") []; mkStatic (s "n1") (s "/o/n1") []].
+Definition ex_times (_ : nat) : list str := [s "--"; s "--"; s "--"; s "--"; s "--"].
+Definition ex_last : ExecBase.st * list (nat * nat) :=
+  last (ExecJobs.run_acc ex_cfg ex_eg (ExecBase.init ex_eg) [] ex_pins) (ExecBase.init ex_eg, []).
+
+Example ex_history_reached : In ex_last (ExecJobs.run_acc ex_cfg ex_eg (ExecBase.init ex_eg) [] ex_pins).
+Proof. vm_compute. auto. Qed.
+
+Example ex_history_trace : snd ex_last = [(0, 0); (0, 1); (1, 2)].
+Proof. vm_compute. reflexivity. Qed.
+
+Example ex_history_hypotheses :
+  instances ex_rg 0 = seq 1 (List.length ex_eg) /\
+  valid ex_rg 0 (exec_recs ex_statics ex_times (fst ex_last)) = true /\
+  H12_rows ex_rg 0 (exec_recs ex_statics ex_times (fst ex_last)) = true.
+Proof. vm_compute. auto. Qed.
+
+Example ex_history_rows :
+  map (fun r => (nth 0 r [], nth 1 r [], nth 3 r [], nth 9 r []))
+      (status_rows ex_rg 0 (exec_recs ex_statics ex_times (fst ex_last)))
+  = [(s "n0", s "1", s "FINISHED", s "1"); (s "n1", s "2", s "PENDING", s "0")].
+Proof. vm_compute. reflexivity. Qed.
+
+(** the trace-level monitor rejects a table showing a stale job id *)
+Example ex_job_column_rejects_stale :
+  job_column_ok ex_rg 0 (exec_recs ex_statics ex_times (fst ex_last)) [(1, 0); (1, 1); (2, 2); (1, 7)]
+                (snd (model_obs ex_rg 0 (exec_recs ex_statics ex_times (fst ex_last)))) = false.
 Proof. vm_compute. reflexivity. Qed.
